@@ -414,7 +414,8 @@ class C12(Check):
     rule = ('cases = (config, operation sequence[, fault set]) with config in {1,2 objects} x {reentrant, not} x '
             '{default timeout -1, small}; sequences enumerated completely up to the stated length (first op by '
             'thread 0 on object 0 to break symmetry), every (model state reachable in <= 6 ops) x (op) transition, '
-            'random sequences up to length 30; fault cases inject OSError at every call index of '
+            'random sequences up to length 30; ten sequences in a real process whose standard streams are closed (lock file on '
+            'descriptor 0-2); fault cases inject OSError at every call index of '
             'open/lock/unlock/close (single; pairs in thorough) observed in a fault-free dry run of the sequence; '
             'non-trivial = the sequence contains a refused / timed-out acquire, a nested acquire, a forced release, '
             'a release of an unheld lock, or an injected fault that fired; distinct = distinct (config, sequence, faults)')
